@@ -63,6 +63,9 @@ H(name="c06_hkdf_noise_lockstep", crate="kestrel-crypto", props=["C06", "C05"], 
 H(name="c06_constants", crate="kestrel-crypto", props=["C06", "C02", "C09", "C11"], est_s=5,
   desc="frozen constants: chunk 65536, scrypt 32768/8/1, tag 16, magics 65676B10 / 65676B20", funcs=["constants"], bounds="-", env=[], outside="")
 
+H(name="c07_secure_random_fresh", crate="kestrel-crypto", mod="verif_rng", props=["C07"], est_s=60, replay="model",
+  desc="nine consecutive secure_random(32) calls return pairwise different blocks, each wholly CSPRNG output (no pooling/reuse across calls)",
+  funcs=["secure_random"], bounds="9 draws of 32 bytes (288 bytes: more than a 256-byte pool)", env=["getrandom::fill stamps every 32-byte block it fills with a unique serial (fresh output), rest unconstrained"], outside="longer histories; draws of other sizes")
 # ------------------------------------------------------------------ H-ENC (encrypt.rs)
 ENC_FUNCS = ["encrypt::encrypt_chunks"]
 ENC_DESC = ("encrypt_chunks output == format model byte for byte (BE64 counter, BE32 last flag, BE32 length, ct, tag; "
@@ -92,12 +95,12 @@ DEC_FUNCS = ["decrypt::decrypt_chunks", "decrypt::read_err", "decrypt::write_err
 ATT_DESC = ("decrypt_chunks on a COMPLETELY UNCONSTRAINED byte stream (any content, any length) while the ideal AEAD holds one authentic file: "
             "Ok => every chunk authenticated in order up to the final-flagged one, output == complete plaintext, stream ended right there, consumed == authentic length; "
             "inside every write: only the just-authenticated chunk, whole; no panic; reads and AEAD inputs <= chunk+16")
-H(name="dec_attack_cs2_n2", crate="kestrel-crypto", props=["C03", "C04", "C09", "C11"], auto_props=["C09"], est_s=300,
+H(name="dec_attack_cs2_n2", crate="kestrel-crypto", props=["C03", "C04", "C09", "C11", "C13"], auto_props=["C09"], est_s=300,
   desc=ATT_DESC, funcs=DEC_FUNCS, bounds="chunk size 2; authentic file of 1..2 chunks with any legal chunk lengths; attacker stream 0..70 bytes; key mode",
   env=[E_AEAD, E_ZERO], outside="real forgery probability (ideal AEAD); > 2 chunks")
 H(name="dec_attack_cs2_n2_pass", crate="kestrel-crypto", props=["C03", "C04", "C02", "C09"], auto_props=["C09"], est_s=300,
   desc=ATT_DESC, funcs=DEC_FUNCS, bounds="as dec_attack_cs2_n2, password mode (aad = magic)", env=[E_AEAD, E_ZERO], outside="")
-H(name="dec_attack_cs1_n3", crate="kestrel-crypto", props=["C03", "C04", "C09", "C11"], auto_props=["C09"], est_s=400,
+H(name="dec_attack_cs1_n3", crate="kestrel-crypto", props=["C03", "C04", "C09", "C11", "C13"], auto_props=["C09"], est_s=400,
   desc=ATT_DESC, funcs=DEC_FUNCS, bounds="chunk size 1; authentic file of 1..3 chunks; attacker stream 0..101 bytes", env=[E_AEAD, E_ZERO], outside="> 3 chunks")
 H(name="dec_attack_cs3_n4", crate="kestrel-crypto", props=["C03", "C04", "C09", "C11"], auto_props=["C09"], tier="thorough", est_s=2000, timeout=5400, mem_gb=16,
   desc=ATT_DESC, funcs=DEC_FUNCS, bounds="chunk size 3; authentic file of 1..4 chunks; attacker stream 0..142 bytes", env=[E_AEAD, E_ZERO], outside="> 4 chunks")
@@ -118,18 +121,18 @@ H(name="dec_short_reads_cs1", crate="kestrel-crypto", props=["C10", "C01", "C02"
 
 # ------------------------------------------------------------------ H-HDR (header level)
 HDR_ENV = ["noise_encrypt/noise_decrypt, hkdf_sha256, scrypt::scrypt, secure_random and the chunk loop replaced by recorders returning fresh unconstrained values (their own conformance: H-NOISE, C19, C18, H-ENC/H-DEC)", E_ZERO]
-H(name="hdr_key_encrypt", crate="kestrel-crypto", mod="encrypt::verif_hdr_enc", props=["C01", "C05", "C06", "C07", "C08", "C13", "C11"], est_s=60,
+H(name="hdr_key_encrypt", crate="kestrel-crypto", mod="encrypt::verif_hdr_enc", props=["C01", "C05", "C06", "C07", "C08", "C13", "C11", "C10"], est_s=60,
   desc="key_encrypt: handshake gets caller's keys + prologue 65676B10; payload key = fresh 32-byte CSPRNG draw when not supplied; refused key exchange => Err and NOTHING written/flushed/read; header = magic||128-byte handshake, flushed before chunks; file key = HKDF(empty, payload key, handshake hash, 32); chunk loop gets (file key, empty aad, 65536); its result is returned",
   funcs=["encrypt::key_encrypt", "encrypt::write_err"], bounds="all key material; both caller-supplied and fresh ephemeral/payload keys; both outcomes of handshake and chunk loop", env=HDR_ENV, outside="")
 H(name="hdr_key_encrypt_write_fault", crate="kestrel-crypto", mod="encrypt::verif_hdr_enc", props=["C10"], est_s=60,
   desc="key_encrypt: a failing header write => Err(IOWrite), chunk loop never runs", funcs=["encrypt::key_encrypt"], bounds="fault at header write 0 or 1", env=HDR_ENV, outside="")
-H(name="hdr_pass_encrypt", crate="kestrel-crypto", mod="encrypt::verif_hdr_enc", props=["C02", "C06", "C08", "C11"], est_s=60,
+H(name="hdr_pass_encrypt", crate="kestrel-crypto", mod="encrypt::verif_hdr_enc", props=["C02", "C06", "C08", "C11", "C10"], est_s=60,
   desc="pass_encrypt: key = scrypt(password, salt, 32768, 8, 1, 32); header = 65676B20||salt flushed before chunks; chunk loop gets (key, aad = magic, 65536)",
   funcs=["encrypt::pass_encrypt"], bounds="passwords of 0..4 arbitrary bytes (incl. empty, non-ASCII), all salts", env=HDR_ENV, outside="password length > 4 (the code never inspects the password)")
-H(name="hdr_key_decrypt", crate="kestrel-crypto", mod="decrypt::verif_hdr_dec", props=["C01", "C03", "C05", "C06", "C09", "C13", "C04", "C12"], auto_props=["C09"], est_s=90,
+H(name="hdr_key_decrypt", crate="kestrel-crypto", mod="decrypt::verif_hdr_dec", props=["C01", "C03", "C05", "C06", "C09", "C13", "C04", "C12", "C10"], auto_props=["C09"], est_s=90,
   desc="key_decrypt on ANY bytes: wrong magic => Err after <= 4 bytes, nothing decrypted/written; truncated header => IORead; handshake gets (recipient keys, the 4 bytes read as prologue, bytes 4..132); failed handshake => Err, nothing written/flushed; file key = HKDF(empty, payload key, handshake hash, 32); chunk loop gets (file key, empty aad, 65536) right after byte 132; Ok(sender) iff chunks Ok and sender = the authenticated key",
   funcs=["decrypt::key_decrypt", "decrypt::valid_file_format", "decrypt::read_err"], bounds="every byte string of length 0..140 as file head", env=HDR_ENV, outside="")
-H(name="hdr_pass_decrypt", crate="kestrel-crypto", mod="decrypt::verif_hdr_dec", props=["C02", "C03", "C06", "C09", "C13"], auto_props=["C09"], est_s=90,
+H(name="hdr_pass_decrypt", crate="kestrel-crypto", mod="decrypt::verif_hdr_dec", props=["C02", "C03", "C06", "C09", "C13", "C10"], auto_props=["C09"], est_s=90,
   desc="pass_decrypt on ANY bytes: wrong magic / truncated header => Err before any key derivation or write; key = scrypt(password, bytes 4..36, 32768, 8, 1, 32) with constant cost parameters; chunk loop gets (key, aad = magic, 65536) right after byte 36",
   funcs=["decrypt::pass_decrypt", "decrypt::valid_file_format"], bounds="every byte string of length 0..60 as file head; passwords of 0..4 bytes", env=HDR_ENV, outside="")
 H(name="dec_wrong_key_cs2", crate="kestrel-crypto", mod="decrypt::verif_hdr_dec", props=["C02", "C13"], est_s=200,
@@ -213,6 +216,9 @@ H(name="c15_lock_unlock", crate="kestrel-cli", mod="keyring::verif_keyring", pro
   desc="lock_private_key: blob = 65676B30 || salt || ChaCha20-Poly1305(key = scrypt(pw, salt, 32768, 8, 1, 32), nonce 0^12, pt = sk, aad = version), base64 of 84 bytes; unlock(lock(sk,pw),pw) = sk; any other password => PrivateKeyDecrypt",
   funcs=["keyring::Keyring::lock_private_key", "keyring::Keyring::unlock_private_key", "keyring::EncodedSk::{try_from, as_bytes, as_str}"],
   bounds="all 32-byte keys and salts; passwords of 0..4 arbitrary bytes (incl. empty, non-ASCII)", env=KR_ENV, outside="passwords > 4 bytes (never inspected by the code; > 64 is orion's pre-hash)")
+H(name="c15_long_passwords", crate="kestrel-cli", mod="keyring::verif_keyring", props=["C15", "C16"], est_s=120, replay="model",
+  desc="132-byte passwords count in full: lock then unlock with the same password = original key; a password differing in any ONE byte (also beyond byte 64 / 128) fails",
+  funcs=["keyring::Keyring::lock_private_key", "keyring::Keyring::unlock_private_key"], bounds="all 132-byte passwords, every single-byte difference", env=KR_ENV, outside="HMAC's own pre-hashing of keys > 64 bytes (w and SHA-256(w) are the same PBKDF2 password: inherent to RFC 7914, see DESIGN 7.8)")
 H(name="c15_tamper", crate="kestrel-cli", mod="keyring::verif_keyring", props=["C15", "C09"], auto_props=["C09"], est_s=120, replay="model",
   desc="a locked key with ANY one of its 84 bytes changed by any non-zero xor fails to unlock (version byte => PrivateKeyFormat); strings decoding to any other length 0..90 are rejected by EncodedSk::try_from; never a panic",
   funcs=["keyring::Keyring::unlock_private_key", "keyring::EncodedSk::try_from"], bounds="byte index 0..83, every non-zero xor; decoded lengths 0..90", env=KR_ENV, outside="multi-byte changes (each byte is covered by format check, KDF injectivity or the AEAD)")
@@ -235,7 +241,7 @@ CMD_ENV = ["E-FS: in-memory model of the output path (File::create = create-or-t
 BT_UNWIND = ["_RINvNtCs8xvirJzNMvV_4core3ptr9drop_glueSNtNtCs3GJ6w2eqr8A_3std9backtrace15BacktraceSymbolEBG_.0:1",
              "_RINvNtCs8xvirJzNMvV_4core3ptr9drop_glueSNtNtCs3GJ6w2eqr8A_3std9backtrace14BacktraceFrameEBG_.0:1"]
 CMD_OUT = "real process exit code, getopts option tables, OS pipe/file semantics, message text; interactive retry loops (stdin is modelled as not a tty)"
-H(name="cmd_ondemand_file", crate="kestrel-cli", mod="commands::verif_cmd", props=["C13", "C04", "C12"], est_s=60, replay="model",
+H(name="cmd_ondemand_file", crate="kestrel-cli", mod="commands::verif_cmd", props=["C13", "C04", "C12", "C01", "C06", "C08"], est_s=60, replay="model",
   desc="OnDemandFile: constructing it touches nothing; the file is created at the first write OR flush, exactly once, never before", funcs=["commands::OnDemandFile::{new, write, flush, ensure_created}"],
   bounds="every sequence of 3 operations from {write, flush, nothing}; path absent or present", env=CMD_ENV[:1], outside=CMD_OUT)
 H(name="cmd_gen_key_fs", crate="kestrel-cli", mod="commands::verif_cmd", props=["C14", "C13", "C16", "C07", "C12"], est_s=120, replay="model",
@@ -263,10 +269,10 @@ H(name="main_slice_args", crate="kestrel-cli", mod="verif_main", props=["C09", "
 
 # std's substring search nests loops (CharSearcher::next_match -> memchr): with one global bound the nesting is
 # quadratic and symex runs out of memory inside the first `lines().next()`. Per-loop bounds for lines <= 62 bytes:
-STR_UNWIND = ["_RNvNtNtCs8xvirJzNMvV_4core5slice6memchr12memchr_naiveCscPEpKYx75LN_7kestrel.0:17",
-              "_RNvNvNtNtCs8xvirJzNMvV_4core5slice6memchr14memchr_aligned7runtimeCscPEpKYx75LN_7kestrel.0:4",
-              "_RNvXs_NtNtCs8xvirJzNMvV_4core3str7patternNtB4_12CharSearcherNtB4_8Searcher10next_matchCscPEpKYx75LN_7kestrel.0:4",
-              "_RNvMs2_NtCscPEpKYx75LN_7kestrel7keyringNtB5_7Keyring12parse_config.0:8"]
+STR_UNWIND = ["_RNvNtNtCs8xvirJzNMvV_4core5slice6memchr12memchr_naiveCskrTDP3ZfTEe_7kestrel.0:17",
+              "_RNvNvNtNtCs8xvirJzNMvV_4core5slice6memchr14memchr_aligned7runtimeCskrTDP3ZfTEe_7kestrel.0:4",
+              "_RNvXs_NtNtCs8xvirJzNMvV_4core3str7patternNtB4_12CharSearcherNtB4_8Searcher10next_matchCskrTDP3ZfTEe_7kestrel.0:4",
+              "_RNvMs2_NtCskrTDP3ZfTEe_7kestrel7keyringNtB5_7Keyring12parse_config.0:8"]
 PARSER_OUT = "arbitrary UTF-8 texts and exhaustive token sequences: std's str::lines/trim/retain/memchr on symbolic text are out of reach of the bit-blasting back end in quick-tier time (DESIGN 6.1)"
 H(name="c17_name_roundtrip", crate="kestrel-cli", mod="keyring::verif_keyring", unwindset=STR_UNWIND, props=["C17", "C14"], tier="thorough", optional=True, est_s=3000, timeout=5400, mem_gb=16, replay="model",
   desc="the [Key] section text key generation writes (transcribed format) for ANY accepted name of 1..2 ASCII bytes without TAB parses back to exactly that name and public key, and is found by get_key",
